@@ -727,6 +727,7 @@ func (f *fileStore) append(node *btreeNode) error {
 }
 
 func (f *fileStore) fetch(offset uint64) (*btreeNode, error) {
+	verifPoint("page.fetch", offset)
 	if n, ok := f.cache.get(offset); ok {
 		return n, nil
 	}
